@@ -282,6 +282,8 @@ def rparams(ps):
 def render_func(f, out):
     if f.get("quantum"):
         out.append("@quantum")
+    if f.get("shots"):
+        out.append("@shots(%d)" % f["shots"])
     out.append("function %s(%s) -> %s {" % (f["name"], rparams(f["params"]), rtype(f["ret"])))
     for s in f["body"]:
         rstmt(s, 1, out)
@@ -355,96 +357,80 @@ def render(prog, order=None, ctor_return_this=False):
 
 
 # ------------------------------------------------------------------ monomorphisation (for the TLC oracle)
-def _subst_type(t, env):
-    if "p" in t:
-        return copy.deepcopy(env[t["p"]]) if t["p"] in env else t
-    if "arr" in t:
-        if t["arr"] in env:
-            et = env[t["arr"]]
-            return {"arr": et.get("p", "obj"), "size": t["size"]}
-        return t
-    if t.get("targs"):
-        targs = [_subst_type(a, env) for a in t["targs"]]
-        return {"cls": mono_name(t["cls"], targs), "targs": []}
-    return {"cls": t["cls"], "targs": []}
-
-
 def mono_name(name, targs):
     return name + "<" + ",".join(rtype(a) for a in targs) + ">" if targs else name
 
 
-def _subst(node, env, target_type=None):
-    """deep-copy `node`, replacing type parameters and generic class uses by their specialisations"""
-    if isinstance(node, list):
-        return [_subst(x, env) for x in node]
-    if not isinstance(node, dict):
-        return node
-    if "p" in node and len(node) == 1 or "arr" in node and "size" in node or "cls" in node and "targs" in node and "k" not in node:
-        return _subst_type(node, env)
-    out = {}
-    for k, v in node.items():
-        out[k] = _subst(v, env)
-    if out.get("k") == "new":
-        targs = [_subst_type(a, env) for a in node.get("targs", [])]
-        if node.get("diamond"):
-            targs = [_subst_type(a, env) for a in node.get("inferred", [])]
-        out["c"] = mono_name(node["c"], targs)
-        out["targs"] = []
-        out["diamond"] = False
-    if out.get("k") == "cast":
-        pass
-    return out
+class _Mono:
+    """Expands every generic class use into a separate concrete class (each instantiation gets its own
+    specialisation, with its own static fields)."""
+
+    def __init__(self, prog):
+        self.templates = {c["name"]: c for c in prog["classes"] if c.get("tparams")}
+        self.made = {}
+        self.work = []
+
+    def need(self, name, targs):
+        mn = mono_name(name, targs)
+        if name in self.templates and mn not in self.made:
+            self.made[mn] = None
+            self.work.append((name, targs, mn))
+        return mn
+
+    def ty(self, t, env):
+        if "p" in t:
+            return copy.deepcopy(env[t["p"]]) if t["p"] in env else t
+        if "arr" in t:
+            if t["arr"] in env:
+                et = env[t["arr"]]
+                return {"arr": et.get("p", "obj"), "size": t["size"]}
+            return t
+        if t.get("targs"):
+            targs = [self.ty(a, env) for a in t["targs"]]
+            return {"cls": self.need(t["cls"], targs), "targs": []}
+        return {"cls": t["cls"], "targs": []}
+
+    def node(self, n, env):
+        if isinstance(n, list):
+            return [self.node(x, env) for x in n]
+        if not isinstance(n, dict):
+            return n
+        if "k" not in n and (("p" in n and len(n) == 1) or ("arr" in n and "size" in n) or ("cls" in n and "targs" in n)):
+            return self.ty(n, env)
+        out = {k: self.node(v, env) for k, v in n.items()}
+        if out.get("k") == "new":
+            src = n.get("inferred", []) if n.get("diamond") else n.get("targs", [])
+            targs = [self.ty(a, env) for a in src]
+            out["c"] = self.need(n["c"], targs) if targs else n["c"]
+            out["targs"] = []
+            out["diamond"] = False
+            out.pop("inferred", None)
+        return out
+
+    def run(self, prog):
+        if not self.templates:
+            return prog
+        concrete = [c for c in prog["classes"] if not c.get("tparams")]
+        funcs = self.node(prog["funcs"], {})
+        classes = [self.node(c, {}) for c in concrete]
+        out_classes = []
+        while self.work:
+            name, targs, mn = self.work.pop()
+            t = self.templates[name]
+            env = dict(zip(t["tparams"], targs))
+            inst = self.node({k: v for k, v in t.items() if k not in ("name", "tparams", "base", "base_targs")}, env)
+            bt = [self.ty(a, env) for a in t.get("base_targs", [])]
+            inst["name"] = mn
+            inst["tparams"] = []
+            inst["base_targs"] = []
+            inst["base"] = (self.need(t["base"], bt) if bt else t["base"]) if t.get("base") else ""
+            self.made[mn] = inst
+            out_classes.append(inst)
+        return {"funcs": funcs, "classes": classes + out_classes}
 
 
 def monomorphise(prog):
-    """Expand every generic class use into a separate concrete class (each instantiation gets its own
-    specialisation, with its own static fields)."""
-    templates = {c["name"]: c for c in prog["classes"] if c.get("tparams")}
-    if not templates:
-        return prog
-    made = {}
-    work = []
-
-    def need(name, targs):
-        mn = mono_name(name, targs)
-        if name in templates and mn not in made:
-            made[mn] = None
-            work.append((name, targs, mn))
-        return mn
-
-    def scan(node):
-        if isinstance(node, list):
-            for x in node:
-                scan(x)
-        elif isinstance(node, dict):
-            if "cls" in node and node.get("targs") and "k" not in node:
-                need(node["cls"], node["targs"])
-            if node.get("k") == "new" and (node.get("targs") or node.get("diamond")):
-                need(node["c"], node.get("inferred", []) if node.get("diamond") else node["targs"])
-            for v in node.values():
-                scan(v)
-
-    concrete = [c for c in prog["classes"] if not c.get("tparams")]
-    scan(prog["funcs"])
-    scan(concrete)
-    out_classes = []
-    while work:
-        name, targs, mn = work.pop()
-        t = templates[name]
-        env = dict(zip(t["tparams"], targs))
-        inst = _subst({k: v for k, v in t.items() if k not in ("name", "tparams", "base", "base_targs")}, env)
-        bt = [_subst_type(a, env) for a in t.get("base_targs", [])]
-        inst["name"] = mn
-        inst["tparams"] = []
-        inst["base_targs"] = []
-        inst["base"] = mono_name(t["base"], bt) if t.get("base") else ""
-        if t.get("base") and bt:
-            need(t["base"], bt)
-        scan(inst)
-        made[mn] = inst
-        out_classes.append(inst)
-    p2 = {"funcs": _subst(prog["funcs"], {}), "classes": [_subst(c, {}) for c in concrete] + out_classes}
-    return p2
+    return _Mono(prog).run(prog)
 
 
 def to_tlc(prog):
